@@ -138,7 +138,10 @@ func exprString(e ast.Expr) string {
 type Values struct {
 	Index      string // value for the primary index_name field
 	OtherIndex string // value for every other index-like field
-	ID         string
+	// OtherIndex2, when set, is used for every second other index-like field (a body that names
+	// two different indexes: source / target)
+	OtherIndex2 string
+	ID          string
 	Key        string
 }
 
@@ -151,6 +154,7 @@ func IsIndexField(name string) bool {
 // Body renders a JSON object for the template (ordered map as []kv to control key order).
 func (t Template) Body(v Values) map[string]any {
 	m := map[string]any{}
+	others := 0
 	for _, f := range t.Fields {
 		n := strings.ToLower(f.Name)
 		switch {
@@ -158,6 +162,10 @@ func (t Template) Body(v Values) map[string]any {
 			m[f.Name] = v.Index
 		case IsIndexField(f.Name) && f.Type == "string":
 			m[f.Name] = v.OtherIndex
+			if v.OtherIndex2 != "" && others%2 == 1 {
+				m[f.Name] = v.OtherIndex2
+			}
+			others++
 		case f.Type == "string":
 			switch {
 			case strings.Contains(n, "id"):
